@@ -16,7 +16,7 @@ def hcon(p, a, b, y):
     ha = hlc(p, a); hb = hlc(p, b)
     return hmix(hmix(hmix(17, (ha + hb) % HQ), (ha * hb) % HQ), hlc(p, y))
 EXN = {"AssertionError": 1, "ValueError": 2, "ZeroDivisionError": 3, "TypeError": 4, "RuntimeError": 5,
-       "NotImplementedError": 6, "IndexError": 7, "AttributeError": 8, "StopIteration": 9}
+       "NotImplementedError": 6, "IndexError": 7, "AttributeError": 8, "StopIteration": 9, "KeyboardInterrupt": 11, "SystemExit": 12}
 def hgobs(p, guard_items, ig, one_items):
     return hmix(hmix(hmix(23, 0 if guard_items is None else 1 + hlc(p, guard_items)), 1 if ig else 0), hlc(p, one_items))
 def digest_vars(p, kinds, pubs, privs):
